@@ -1,5 +1,197 @@
-"""C10: predefined models of tenpy.models over a small parameter grid (filled in below)."""
+"""C10: every predefined model class of tenpy.models over a small parameter grid.
+
+The model is constructed by its own `__init__`; the adders of CouplingModel are wrapped while it runs so that the
+high-level calls (`add_onsite`, `add_coupling`, `add_multi_coupling`, `add_coupling_term`) are logged in the case
+format of the generated coupling models.  From there on a zoo model is checked exactly like a generated one:
+Lean model of the adders/containers/graph, many-body oracle of the logged calls, all dense representations."""
+import importlib
+import itertools
+import warnings
+
+import numpy as np
+
+from harness import ops_common as oc
+
+
+def _grid(**kw):
+    keys = list(kw)
+    return [dict(zip(keys, vals)) for vals in itertools.product(*[kw[k] for k in keys])]
+
+
+F, I = 'finite', 'infinite'
+
+ZOO = [
+    ('tenpy.models.xxz_chain', 'XXZChain', _grid(L=[4], Jxx=[1.0], Jz=[0.5], hz=[0.25], bc_MPS=[F, I], explicit_plus_hc=[False])),
+    ('tenpy.models.xxz_chain', 'XXZChain2', _grid(L=[4], Jxx=[1.0], Jz=[-0.5], hz=[0.25], bc_MPS=[F, I], conserve=['Sz', None],
+                                                     explicit_plus_hc=[False, True])),
+    ('tenpy.models.tf_ising', 'TFIChain', _grid(L=[5], J=[1.0], g=[0.5], bc_MPS=[F, I], conserve=['parity', None], explicit_plus_hc=[False, True])),
+    ('tenpy.models.tf_ising', 'TFIModel', _grid(lattice=['Square', 'Honeycomb'], Lx=[2], Ly=[2], J=[1.0], g=[1.5], bc_MPS=[F, I], bc_y=['cylinder', 'ladder'])),
+    ('tenpy.models.spins', 'SpinChain', _grid(L=[4], S=[0.5, 1.0], Jx=[1.0], Jy=[0.5], Jz=[0.25], hz=[0.5], D=[0.25], E=[0.0, 0.5],
+                                              muJ=[0.0, 0.5], bc_MPS=[F], conserve=['best'])),
+    ('tenpy.models.spins', 'SpinChain', _grid(L=[2], S=[0.5], Jx=[1.0], Jy=[1.0], Jz=[0.25], hx=[0.0, 0.5], bc_MPS=[I], conserve=['best', None])),
+    ('tenpy.models.spins', 'SpinModel', _grid(lattice=['Ladder', 'Triangular', 'Kagome'], L=[2], Lx=[1], Ly=[2], S=[0.5], Jx=[1.0], Jy=[1.0], Jz=[0.5],
+                                              hz=[0.25], bc_MPS=[F, I], bc_y=['cylinder'])),
+    ('tenpy.models.spins', 'DipolarSpinChain', _grid(L=[5], S=[1], J3=[1.0], J4=[0.0, 0.5], bc_MPS=[F], conserve=['best', 'Sz', 'parity', None])),
+    ('tenpy.models.spins_nnn', 'SpinChainNNN', _grid(L=[3], S=[0.5], Jx=[1.0], Jy=[1.0], Jz=[0.5], Jxp=[0.5], Jyp=[0.5], Jzp=[0.25], hz=[0.25],
+                                                     bc_MPS=[F, I], conserve=['best', None])),
+    ('tenpy.models.spins_nnn', 'SpinChainNNN2', _grid(L=[5], S=[0.5], Jx=[1.0], Jy=[1.0], Jz=[0.5], Jxp=[0.5], Jyp=[0.5], Jzp=[0.25], hx=[0.0, 0.25],
+                                                      bc_MPS=[F, I], conserve=['best'])),
+    ('tenpy.models.fermions_spinless', 'FermionChain', _grid(L=[5], J=[1.0], V=[0.5], mu=[0.25], bc_MPS=[F, I], conserve=['N', 'parity', None],
+                                                              explicit_plus_hc=[False, True])),
+    ('tenpy.models.fermions_spinless', 'FermionModel', _grid(lattice=['Square', 'Ladder', 'Honeycomb'], L=[3], Lx=[2], Ly=[2], J=[1.0], V=[0.5], mu=[0.25],
+                                                              bc_MPS=[F, I], bc_y=['cylinder', 'ladder'])),
+    ('tenpy.models.hubbard', 'BoseHubbardChain', _grid(L=[4], n_max=[2], t=[1.0], U=[0.5], V=[0.0, 0.25], mu=[0.25], bc_MPS=[F, I], conserve=['N', 'parity', None])),
+    ('tenpy.models.hubbard', 'BoseHubbardModel', _grid(lattice=['Square'], Lx=[2], Ly=[2], n_max=[1], t=[1.0], U=[0.5], mu=[0.25], bc_MPS=[F], bc_y=['cylinder', 'ladder'])),
+    ('tenpy.models.hubbard', 'FermiHubbardChain', _grid(L=[3], t=[1.0], U=[0.5], V=[0.0, 0.25], mu=[0.25], bc_MPS=[F, I], cons_N=['N', 'parity', None],
+                                                        cons_Sz=['Sz', None], explicit_plus_hc=[False, True])),
+    ('tenpy.models.hubbard', 'FermiHubbardModel', _grid(lattice=['Ladder'], L=[2], t=[1.0], U=[0.5], mu=[0.25], bc_MPS=[F, I])),
+    ('tenpy.models.hubbard', 'FermiHubbardModel2', _grid(L=[4], t=[1.0], U=[0.5], V=[0.25], mu=[0.25], bc_MPS=[F, I], cons_N=['N'], cons_Sz=['Sz', None])),
+    ('tenpy.models.hubbard', 'DipolarBoseHubbardChain', _grid(L=[5], Nmax=[1], t=[1.0], t4=[0.0, 0.5], U=[0.5], mu=[0.25], bc_MPS=[F], conserve=['best', 'N', None])),
+    ('tenpy.models.tj_model', 'tJChain', _grid(L=[4], t=[1.0], J=[0.5], bc_MPS=[F, I], cons_N=['N', None], cons_Sz=['Sz', None])),
+    ('tenpy.models.tj_model', 'tJModel', _grid(lattice=['Ladder'], L=[2], t=[1.0], J=[0.5], bc_MPS=[F])),
+    ('tenpy.models.clock', 'ClockChain', _grid(L=[3], q=[3, 4], J=[1.0], g=[0.5], bc_MPS=[F, I], conserve=['Z', None])),
+    ('tenpy.models.pxp', 'PXPChain', _grid(L=[6], J=[2.0], bc_MPS=[F, I], conserve=['best', None])),
+    ('tenpy.models.haldane', 'BosonicHaldaneModel', _grid(Lx=[1, 2], Ly=[2], t1=[-1.0], V=[0.0, 0.5], mu=[0.25], bc_MPS=[F, I], conserve=['N', None])),
+    ('tenpy.models.haldane', 'FermionicHaldaneModel', _grid(Lx=[1, 2], Ly=[2], t1=[-1.0], V=[0.0, 0.5], mu=[0.25], bc_MPS=[F, I], conserve=['N', None])),
+    ('tenpy.models.hofstadter', 'HofstadterFermions', _grid(Lx=[2], Ly=[2], Jx=[1.0], Jy=[0.5], mu=[0.25], v=[0.0, 0.5], phi=[(1, 2)], bc_MPS=[F, I],
+                                                             gauge=['landau_x', 'landau_y'], conserve=['N'])),
+    ('tenpy.models.hofstadter', 'HofstadterBosons', _grid(Lx=[2], Ly=[2], Nmax=[1], Jx=[1.0], Jy=[0.5], mu=[0.25], U=[0.0, 0.5], phi=[(1, 2)], bc_MPS=[F],
+                                                           gauge=['landau_x', 'landau_y'], conserve=['N', None])),
+    ('tenpy.models.toric_code', 'ToricCode', _grid(Lx=[2], Ly=[2], Jv=[1.0], Jp=[0.5], bc_MPS=[F, I], conserve=['parity', None], bc_y=['cylinder', 'ladder'])),
+    ('tenpy.models.aklt', 'AKLTChain', _grid(L=[4], J=[1.0], bc_MPS=[F, I], conserve=['Sz', None])),
+    ('tenpy.models.mixed_xk', 'SpinlessMixedXKSquare', _grid(Lx=[1], Ly=[2], t=[1.0], V=[0.5], bc_MPS=[I])),
+]
+
+
+def all_cases():
+    res = []
+    for module, cls, grid in ZOO:
+        for params in grid:
+            params = dict(params)
+            if params.get('bc_MPS') == I and 'L' in params and cls not in ('PXPChain',):
+                params['L'] = 2   # unit cell of an infinite chain: the check contracts 2-3 unit cells densely
+            if params.get('bc_MPS') == I and params.get('Lx', 1) > 1 and cls not in ('HofstadterFermions', 'HofstadterBosons'):
+                params['Lx'] = 1
+            res.append({'kind': 'zoo', 'module': module, 'model': cls, 'params': params})
+    return res
 
 
 def cases(ctx):
-    return []
+    allc = all_cases()
+    if ctx.quick:
+        # a rotating third of the grid, every class present
+        rng = ctx.sub_rng('zoo')
+        by_cls = {}
+        for c in allc:
+            by_cls.setdefault(c['model'], []).append(c)
+        res = []
+        for cls, cs in by_cls.items():
+            rng.shuffle(cs)
+            res += cs[:max(1, (len(cs) + 3) // 4)]
+        return res
+    return allc
+
+
+def strength_spec(x):
+    a = np.asarray(x)
+    if a.ndim == 0:
+        return oc.gq(a.item())
+
+    def conv(v):
+        if v.ndim == 0:
+            return oc.gq(v.item())
+        return [conv(w) for w in v]
+    return conv(a)
+
+
+class CallLogger:
+    """wraps the adders of CouplingModel (and the decorated copies in CouplingMPOModel) while a predefined model
+    is constructed; logs every outermost call in the case format and performs it through c10_model.apply_call"""
+
+    NAMES = ['add_onsite', 'add_coupling', 'add_multi_coupling', 'add_coupling_term', 'add_onsite_term',
+             'add_multi_coupling_term', 'add_exponentially_decaying_coupling']
+
+    def __init__(self):
+        self.calls = []
+        self.lean_calls = []
+        self.depth = 0
+        self.site_index = {}
+        self.distinct = []
+        self.unsupported = []
+
+    def _sites(self, M):
+        for s in M.lat.unit_cell:
+            if id(s) not in self.site_index:
+                self.site_index[id(s)] = len(self.distinct)
+                self.distinct.append(s)
+
+    def _wrap(self, name, orig):
+        from harness import c10_model as cm
+        logger = self
+
+        def wrapper(self_, *args, **kwargs):
+            if logger.depth > 0:
+                return orig(self_, *args, **kwargs)
+            import inspect
+            ba = inspect.signature(orig).bind(self_, *args, **kwargs)
+            ba.apply_defaults()
+            a = ba.arguments
+            call = None
+            if name == 'add_onsite':
+                call = {'f': 'add_onsite', 'strength': strength_spec(a['strength']), 'u': int(a['u']), 'op': a['opname'],
+                        'category': a['category'], 'plus_hc': bool(a['plus_hc'])}
+            elif name == 'add_coupling':
+                call = {'f': 'add_coupling', 'strength': strength_spec(a['strength']), 'u1': int(a['u1']), 'op1': a['op1'],
+                        'u2': int(a['u2']), 'op2': a['op2'], 'dx': [int(v) for v in np.array(a['dx']).reshape(-1)],
+                        'op_string': a['op_string'], 'category': a['category'], 'plus_hc': bool(a['plus_hc'])}
+            elif name == 'add_multi_coupling' and a['op_string'] is None:
+                call = {'f': 'add_multi_coupling', 'strength': strength_spec(a['strength']),
+                        'ops': [[o, [int(v) for v in np.array(dx).reshape(-1)], int(u)] for o, dx, u in a['ops']],
+                        'category': a['category'], 'plus_hc': bool(a['plus_hc']), 'switchLR': a['switchLR']}
+            elif name == 'add_coupling_term':
+                call = {'f': 'add_coupling_term', 'strength': strength_spec(a['strength']), 'i': int(a['i']), 'j': int(a['j']),
+                        'op_i': a['op_i'], 'op_j': a['op_j'], 'op_string': a['op_string'], 'category': a['category'],
+                        'plus_hc': bool(a['plus_hc'])}
+            elif name == 'add_onsite_term':
+                call = {'f': 'add_onsite_term', 'strength': strength_spec(a['strength']), 'i': int(a['i']), 'op': a['op'],
+                        'category': a['category'], 'plus_hc': bool(a['plus_hc'])}
+            if call is None:
+                logger.unsupported.append(name)
+                return orig(self_, *args, **kwargs)
+            logger._sites(self_)
+            logger.depth += 1
+            try:
+                cm.apply_call(self_, call, logger.lean_calls, logger.site_index)
+            finally:
+                logger.depth -= 1
+            logger.calls.append(call)
+        return wrapper
+
+    def __enter__(self):
+        from tenpy.models import model as mm
+        from harness import c10_model as cm
+        cm._orig('add_onsite')  # fill the table of originals before patching
+        self._saved = []
+        for cls in (mm.CouplingModel, mm.CouplingMPOModel):
+            for n in self.NAMES:
+                if n in cls.__dict__:
+                    self._saved.append((cls, n, cls.__dict__[n]))
+                    setattr(cls, n, self._wrap(n, cm._orig(n)))
+        return self
+
+    def __exit__(self, *a):
+        for cls, n, f in self._saved:
+            setattr(cls, n, f)
+
+
+def build_zoo_model(case):
+    """(model, lean_calls, distinct_sites, logged calls, unsupported adders)"""
+    mod = importlib.import_module(case['module'])
+    cls = getattr(mod, case['model'])
+    params = dict(case['params'])
+    with warnings.catch_warnings():
+        warnings.simplefilter('ignore')
+        with CallLogger() as log:
+            M = cls(params)
+    log._sites(M)
+    return M, log.lean_calls, log.distinct, log.calls, log.unsupported
